@@ -1525,6 +1525,58 @@ def r12(prog, rep, anchors=True):
     else: rep.ok('C16.R12', 'yywrap: evaluated for 1..5 input files - a run opens exactly num_input_files files, each through *++input_files, and returns 0 iff it opened one')
     return n
 
+# ---------------------------------------------------------------- R13: a function that may move its argument hands the new address back
+
+REALLOC_FAMILY = ('reallocate_array', 'realloc', 'reallocarray', 'yyrealloc')
+
+def moving_functions(prog):
+    """{function: parameter slot} for the functions of flex that reallocate the block a pointer parameter points to and
+    return the (possibly new) address: a store into the parameter's slot of a value derived from a realloc-family call
+    whose first argument is that parameter, and a `ret` of a load of the same slot"""
+    out = {}
+    for f in fns(prog):
+        if not f.blocks: continue
+        slots = {}
+        for x in f.ins:
+            if x.op == 'store' and x.ops[0][0] == 'reg' and x.ops[0][1] in getattr(f, 'params', ()) :
+                slots[x.ops[1]] = x.ops[0][1]
+        if not slots:
+            # parameters are spilled to %name.addr allocas in -O0 IR
+            for x in f.ins:
+                if x.op == 'store' and x.ops[1][0] == 'reg' and str(x.ops[1][1]).endswith('.addr'): slots[x.ops[1]] = x.ops[0]
+        for slot in slots:
+            moved = False
+            for c in f.ins:
+                if c.op != 'call' or c.callee not in REALLOC_FAMILY or not c.ops: continue
+                a = flow.strip_casts(f, c.ops[0]); d = f.def_of(a) if a[0] == 'reg' else None
+                if d is None or d.op != 'load' or d.ops[0] != slot: continue
+                for st in f.ins:
+                    if st.op == 'store' and st.ops[1] == slot and flow.strip_casts(f, st.ops[0]) == ('reg', c.res): moved = True
+            if not moved: continue
+            for r in f.ins:
+                if r.op == 'ret' and r.ops:
+                    d = f.def_of(flow.strip_casts(f, r.ops[0])) if r.ops[0][0] == 'reg' else None
+                    if d is not None and d.op == 'load' and d.ops[0] == slot: out[f] = slot
+    return out
+
+def r13(prog, rep):
+    """every call of such a function uses the returned address: a caller that keeps its old pointer works until the block
+    is actually moved (input large enough to outgrow the initial allocation), then reads and frees released memory"""
+    mv = moving_functions(prog)
+    n = 0
+    for g, slot in sorted(mv.items(), key=lambda kv: kv[0].name):
+        for f in fns(prog):
+            k = 0
+            for c in f.ins:
+                if c.op != 'call' or c.callee != g.name: continue
+                n += 1
+                used = any(('reg', c.res) in [o for o in y.ops if isinstance(o, tuple)] for y in f.ins if y is not c) if c.res is not None else False
+                kk = key('C16.R13', f, '%s#%d:result-dropped' % (g.name, k)); k += 1
+                if used: rep.ok('C16.R13', '%s: the address returned by %s() (which may reallocate its argument) is used' % (where(c), g.name))
+                else: rep.fail('C16.R13', kk, where(c), '%s() reallocates the block its pointer argument designates and returns the new address, but this call in %s() drops the '
+                               'result: once the block has moved (an input that outgrows the initial allocation) the caller goes on with the released block' % (g.name, f.name))
+    return n
+
 def run(ctx):
     rep = ctx.rep
     prog = ctx.flex
@@ -1545,6 +1597,7 @@ def run(ctx):
     counts['R10'] = r10(prog, rep)
     counts['R11'] = r11(prog, rep)
     counts['R12'] = r12(prog, rep)
+    counts['R13'] = r13(prog, rep)
     counts['R9'] = genutil.rule_param_array_loops(rep, prog, 'C16.R9', [f for f in fns(prog) if f.file and not f.file.endswith(('scan.c', 'parse.c')) and 'stage' not in f.file])
     rep.setcount('capacity_families', len(r8table))
     rep.setcount('translation_units', len(prog.modules))
@@ -1559,6 +1612,7 @@ def run(ctx):
     rep.floor('C16.R7', 800, 'constant-index addresses of fixed arrays in flex')
     rep.floor('C16.R11', 12, 'growth guards today: sf_push, genctbl x2, mkctbl x2, snstods, new_rule, scinstal, mk1tbl x2, cclinit, mkstate - a family whose guard is no longer a K-vs-C test drops out and trips this floor')
     rep.floor('C16.R12', 2, 'first open in flexinit, yywrap')
+    rep.floor('C16.R13', 2, 'the two calls of epsclosure() in ntod()')
     rep.floor('C16.R10', 5, 'argv reads today: scanopt x2, scanopt_err x3 (one guarded, two argv[0]), scanopt_usage argv[0], flexinit argv[0]')
     rep.floor('C16.R9', 8, 'loops over (array, count) parameter pairs in dfa.c, ecs.c, tblcmp.c')
     rep.floor('C16.R8', 38, '11 capacity families with 37 (capacity, array) pairs today; epsclosure grows current_max_dfa_size at 5 macro sites')
